@@ -12,16 +12,17 @@ LEVEL = "exploration"
 PROPS = ["C11"]
 
 NAMES = ["B1", "a2", "Zz", "z0", "_x", "10", "9", "Alpha", "beta", "GAMMA", "r001", "R002", "r-3", "m.n", "Q#", "aa", "AB"]
-ACCT_PATS = ["alice", "bob", "al*", "?ob", "*", "a*e", "alice:*", "nobody"]
+ACCT_PATS = ["alice", "bob", "al*", "?ob", "*", "a*e", "alice:*", "nobody", "[ab]*", "al[!x]ce", "a\\*", "[a-c]lice", "[!a-z]ob", "alic[e", "*[e-t]"]
 ADDR_PATS = ["10.0.0.0/8", "10.1.2.0/24", "10.1.2.3", "10.1.*", "10.1.2.*", "10.*", "2001:db8::/32", "2001:db8:1::/48", "2001:db8:1:*", "*", "0.0.0.0/0",
              "10.1.2.2/31", "10.1.2.0/23", "2001:db8::/33", "2001:db8:8000::/33", "2001:db8:1::5/128", "10.1.3.0/24", "11.0.0.0/8", "2001:db8:1:0:0:0:0:4/126",
              "10.1.2.3/32", "10.1.2.128/25", "2001:db8::/16", "2001:*"]
-USER_PATS = ["~*", "joe", "j?e", "*", "~joe", "?*", "root"]
-HOST_PATS = ["*.example.org", "host?.net", "*", "a.example.org", "*.net", "host??.net", "?*", "*.*", "10.*", "*:*", "2001:*"]
+USER_PATS = ["~*", "joe", "j?e", "*", "~joe", "?*", "root", "[~j]*", "j[a-o]e", "\\~joe", "[!~]*"]
+HOST_PATS = ["*.example.org", "host?.net", "*", "a.example.org", "*.net", "host??.net", "?*", "*.*", "10.*", "*:*", "2001:*", "*example.org", "?.example.org",
+             "*/*", "[a-b].example.org*", "HOST*", "*[!.]"]
 IPS = ["10.1.2.3", "10.1.3.3", "10.2.0.1", "11.0.0.1", "10.1.2.130", "10.1.2.2", "2001:db8::1", "2001:db8:1::5", "2001:db9::1", "2001:db8:8000::1", "2001:db8:1::6", "2001:dbf::9"]
 IDENTS = ["joe", "~joe", "jae", None, "~x", "root"]
-HOSTS = ["a.example.org", "host1.net", "host22.net", None, "b.example.org.", "HOST1.NET"]
-ACCOUNTS = ["alice:123", "bob", "albert", None, "alice", "Bob", "alice:1:2"]
+HOSTS = ["a.example.org", "host1.net", "host22.net", None, "b.example.org.", "HOST1.NET", ".example.org", "x/y.example.org", "c.example.org"]
+ACCOUNTS = ["alice:123", "bob", "albert", None, "alice", "Bob", "alice:1:2", "a*", "alic[e", "clice:9"]
 SERVICES = [("login.svc", "login"), ("Drone.Net", "dronecheck"), ("combo.svc", "combined")]
 
 
